@@ -43,6 +43,7 @@ type schedLink struct {
 	cliGone  bool // client closed: peer reads EOF
 	out      [][]byte
 	outEOF   bool
+	allOut   []byte // everything the peer ever wrote
 }
 
 func newSchedLink() *schedLink {
@@ -76,6 +77,7 @@ func (p peerEnd) Write(b []byte) (int, error) {
 	l := p.l
 	l.mu.Lock()
 	l.out = append(l.out, append([]byte(nil), b...))
+	l.allOut = append(l.allOut, b...)
 	l.mu.Unlock()
 	return len(b), nil
 }
